@@ -98,7 +98,7 @@ func tagsOf(s *scenario) []string {
 	} else {
 		tags = append(tags, "via-direct")
 	}
-	return append(tags, groupTags(s)...)
+	return append(append(tags, groupTags(s)...), labelTags(s)...)
 }
 
 func valid(s *scenario) bool {
@@ -131,6 +131,9 @@ func valid(s *scenario) bool {
 		if len(s.groups) > 0 {
 			return false // 90 s worlds: not combined with bystanders
 		}
+	}
+	if !labelValid(s) {
+		return false
 	}
 	if len(s.groups) > 3 {
 		return false
@@ -197,6 +200,10 @@ func generate(tier string, r *rng.R) []fw.Case {
 	// a second live environment on the victim's agent, older or younger than the victim, for every failure kind
 	// (appended after the older strata: those are unchanged for a given seed)
 	bystanderCases(r, ls, add)
+	// stratum: the `environmentId` label of the messages about the victim names no environment (the executor was launched
+	// for an earlier environment / sends no label) or another live one — every kind announced by one message of the
+	// executor, TASK_INTERNAL_ERROR at every instant (appended after the older strata: those are unchanged for a given seed)
+	labelCases(r, ls, add)
 	if tier == "thorough" {
 		// a handful of worlds that sit in the core's 90 s response timeout
 		for _, sc := range []*scenario{
@@ -217,6 +224,9 @@ func generate(tier string, r *rng.R) []fw.Case {
 		for n := len(out) + 400; len(out) < n; {
 			add(randomBystanderCase(r, ls))
 		}
+		for n := len(out) + 300; len(out) < n; {
+			add(randomLabelCase(r, ls))
+		}
 	}
 	return out
 }
@@ -233,6 +243,9 @@ func search(r *rng.R) []fw.Case {
 		}
 		if r.P(1, 4) {
 			s = randomBystanderCase(r, ls)
+		}
+		if r.P(1, 5) {
+			s = randomLabelCase(r, ls)
 		}
 		if !valid(s) || seen[s.String()] {
 			continue
@@ -284,6 +297,9 @@ func shrinkCands(input string) []string {
 	for _, c := range shrinkGroups(s) {
 		push(c)
 	}
+	for _, c := range shrinkLabel(s) {
+		push(c)
+	}
 	return out
 }
 
@@ -307,6 +323,7 @@ var assumptions = []string{
 	"simulated executors: one executor per host and environment (the core re-uses the executor of an offer), tasks answer every command with success unless scripted; a task that announced TASK_INTERNAL_ERROR still answers STOP with success",
 	"the core is not PARTITION_AWARE: TASK_DROPPED/UNREACHABLE/GONE are never sent by Mesos and are not generated",
 	"wall-clock order assumed by the model's schedule: replies of the in-flight transition, its end, a STOP_ACTIVITY queued by handleDeviceEvent, then the watcher's 500 ms timer",
+	"foreign labels (last input field `(label L)`): the simulated executor of the victim is told, right before the injection, to stamp its messages with another environment id (sim.RelabelTask) — what an executor launched for an earlier environment (task released with keepTasks, claimed by a later environment under reuseUnlockedTasks) or an executor that sends no label does; the claim itself is not made through the core: on the unchanged code a creation that claims a task never gets past DEPLOY (the claimed role's status is never set to ACTIVE), so a live environment with a claimed task cannot be produced end to end; a status update without label carries no labels at all, a device event an empty value (both parse to the nil id)",
 	"bystander groups (sixth input field): one executor per agent (the core re-uses the executor id an offer lists; checked per world for the executor kinds, a world where it does not hold is inconclusive); roster order = creation order of the environments (checked per world against GetTasks); a kept task's own state is read off the core's task events (ERROR / DONE if any Ev_TaskEvent about it since the injection says so, else STANDBY), its status is not observed (HandleAgentFailed / HandleExecutorFailed publish no event after setting it); a bystander environment without victims is looked at once the main environment has settled and not earlier than 1.5 s after the injection; kept tasks exist only AFTER the last environment creation of a world (CreateEnvironment's pre-deployment Cleanup() kills every unlocked task)",
 }
 
@@ -339,6 +356,9 @@ func init() {
 			"TASK_FAILED/LOST/KILLED/ERROR/FINISHED reaches the core only as the master's answer (REASON_RECONCILIATION) to the implicit RECONCILE of the re-subscription; " +
 			"optionally (sixth field) 1..3 bystander groups of 1..3 tasks on the same agents: the tasks of another environment created before / after the main one (= before / after its tasks in the roster) " +
 			"that is still alive (CONFIGURED) or was destroyed with keepTasks once every environment existed (tasks of nobody: in the roster, running, no parent role) — every walk kind (executor / agent FAILURE, agent lost while cut off) x live state x {before, after} x {nobody's, second environment's} with a critical victim and a bystander on its agent, every other kind with one random group, 14 multi-group worlds; " +
+			"optionally (last field `(label L)`, kinds announced by ONE message of the task's executor: TASK_FAILED/LOST/KILLED/ERROR/FINISHED status, TASK_INTERNAL_ERROR device event) the `environmentId` label of the messages about the victim — " +
+			"the environment the executor launched the task FOR, stamped once — names no environment (stale: a well-formed id nobody has = the task's first environment is gone; none: no usable label) or another live one (other: the first live bystander environment): " +
+			"every such kind x live state x {stale, none} with a critical victim, TASK_INTERNAL_ERROR also while a transition is in flight / at burst, with a non-critical victim, with the label of an older / younger second environment, and with kept tasks of a destroyed environment in the roster; " +
 			"observed after the settle window: environment state, state/status of the root and of every task role, run events, end-of-run stamps, STOP commands, result of the racing transition, " +
 			"and per bystander group the second environment's state, root and roles resp. the kept tasks' own state as published in the core's task events; " +
 			"quick = every (live state, kind, instant) with a critical and a non-critical victim on a random layout; non-trivial = >= 2 tasks or a critical victim; distinct by input text",
